@@ -4,7 +4,7 @@
 **/
 use swc_common::util::take::Take;
 use swc_ecma_ast::*;
-use swc_ecma_visit::{Visit, VisitMut, VisitMutWith};
+use swc_ecma_visit::{Visit, VisitMut, VisitMutWith, VisitWith};
 
 use crate::{
     telemetry::Telemetry,
@@ -70,6 +70,18 @@ impl OperationTransformVisitor<'_> {
 
 impl Visit for OperationTransformVisitor<'_> {}
 
+// Registers the identifiers of a sub-tree that is not instrumented, so that the check of
+// duplicated variable names also sees the user identifiers it contains.
+struct IdentRegister<'a> {
+    ident_provider: &'a mut dyn IdentProvider,
+}
+
+impl Visit for IdentRegister<'_> {
+    fn visit_ident(&mut self, ident: &Ident) {
+        self.ident_provider.register_variable(ident);
+    }
+}
+
 impl VisitMut for OperationTransformVisitor<'_> {
     fn visit_mut_expr(&mut self, expr: &mut Expr) {
         let plus_operator_enabled = self.csi_methods.plus_operator_is_enabled();
@@ -123,6 +135,10 @@ impl VisitMut for OperationTransformVisitor<'_> {
                         opv_with_child_ctx.update_status(result.status, Some(TPL_TAG.to_string()));
                         result.expr.unwrap_or(tpl)
                     });
+                } else {
+                    tpl.visit_children_with(&mut IdentRegister {
+                        ident_provider: self.ident_provider,
+                    });
                 }
             }
 
@@ -161,10 +177,17 @@ impl VisitMut for OperationTransformVisitor<'_> {
             Expr::Unary(unary_expr) => {
                 if UnaryOp::Delete != unary_expr.op {
                     expr.visit_mut_children_with(self);
+                } else {
+                    unary_expr.visit_children_with(&mut IdentRegister {
+                        ident_provider: self.ident_provider,
+                    });
                 }
             }
 
             Expr::Arrow(arrow) => {
+                arrow.params.visit_with(&mut IdentRegister {
+                    ident_provider: self.ident_provider,
+                });
                 let transform_result = ArrowTransform::to_dd_arrow_expr(arrow);
                 if transform_result.is_modified() {
                     expr.map_with_mut(|e| transform_result.expr.unwrap_or(e));
